@@ -1448,7 +1448,9 @@ def _fails(a, tol, o):
     if a['err'] == 'divzero':
         return False
     if a['err'] == 'nan':
-        return 'err' in o
+        return False      # round 5: Corr.agree requires nothing where no Piecewise branch matches (Err ENan => true); the
+        #                   mirror used to call an exception there "failing", which then needed a finding to explain it
+        #                   (thorough tier: TimeType * Piecewise-without-match raises ValueError, false alarm)
     return not ('err' in o or 'nan' in o)
 
 
